@@ -59,6 +59,10 @@ def check_c15(tier):
         hist, st = gen_histories(maxlen, seeds)
         states += st["distinct"]
         transitions += st["generated"]
+        if maxlen >= 3:
+            # TLC model-checks all of them; every other history (by seed parity) is replayed into the code, to keep the
+            # thorough tier within the hour
+            hist = hist[seed % 2::2]
         for mode in ("mp", "f64"):
             res = objsm.replay(hist, mode, variants=1)
             recs += res["records"]
